@@ -30,7 +30,7 @@ class Spec:
                  inline=None, loops=None, requires=None, ensures=None, raises=None, always=None,
                  globals=None, truthy=None, class_consts=None, exc_attrs=None, local_types=None,
                  len_of=None, trusted=None, notes='', returns=None, modifies=None, tags=None, setup=None,
-                 region=None, falsy_sorts=()):
+                 region=None, falsy_sorts=(), cases=None):
         self.prop, self.module, self.qualname, self.self_class = prop, module, qualname, self_class
         self.params = {k: parse_type(v) for k, v in (params or {}).items()}
         self.classes = {c: {f: parse_type(t) for f, t in fs.items()} for c, fs in (classes or {}).items()}
@@ -55,6 +55,7 @@ class Spec:
         self.setup = setup
         self.region = region
         self.falsy_sorts = set(falsy_sorts)
+        self.cases = cases      # [(label, {field: python const})]: finite case split of the pre-state
         Spec.registry.append(self)
 
     @property
@@ -181,8 +182,20 @@ def contract_stub(spec_getter):
         spec = spec_getter() if callable(spec_getter) else spec_getter
         ex, st = cx.ex, cx.st
         recv = cx.recv if isinstance(cx.recv, VRef) else ex.self_ref
-        names = list(spec.params)
-        args = dict(zip(names, cx.args))
+        names = [n for n in spec.params if n != getattr(spec, 'vararg', None)]
+        pos = list(cx.args)
+        args = {}
+        va = getattr(spec, 'vararg', None)
+        if va is not None:
+            npos = len([n for n in names if n not in getattr(spec, 'kwonly', ())])
+            rest = pos[npos:]
+            pos = pos[:npos]
+            if len(rest) == 1 and isinstance(rest[0], tuple) and rest[0][0] == 'star':
+                args[va] = rest[0][1]
+            else:
+                t = spec.params[va]
+                args[va] = VSeq(to_z3(VList(rest), t), t.args[0])
+        args.update(dict(zip(names, pos)))
         args.update(cx.kwargs)
         c0 = Ctx(ex, st, st, recv, args=args)
         if spec.requires is not None:
@@ -259,6 +272,25 @@ def initial_state(ex, spec, fn):
 
 
 def generate(spec, mutate=None):
+    """Run the engine (once per declared case) -> FunctionResult"""
+    if not spec.cases:
+        return _generate(spec, mutate, None)
+    total = None
+    for label, vals in spec.cases:
+        r = _generate(spec, mutate, (label, vals))
+        if total is None:
+            total = r
+        else:
+            total.obligations.extend(r.obligations)
+            total.outcomes.extend(r.outcomes)
+            total.paths += r.paths
+            total.gen_s += r.gen_s
+            total.touched = sorted(set(total.touched) | set(r.touched))
+            total.unsupported = total.unsupported or r.unsupported
+    return total
+
+
+def _generate(spec, mutate=None, case=None):
     """Run the engine on the real source of spec's function -> FunctionResult."""
     t0 = time.time()
     res = FunctionResult(spec)
@@ -280,18 +312,30 @@ def generate(spec, mutate=None):
         st = initial_state(ex, spec, fn)
         if spec.setup:
             spec.setup(ex, st)
+        tag = ''
+        if case is not None:
+            tag = '[' + case[0] + ']'
+            for f, val in case[1].items():
+                if f.startswith('arg:'):
+                    st.env[f[4:]] = wrap_const(val)
+                    st.inputs[f[4:]] = st.env[f[4:]]
+                else:
+                    st.set_field(ex.self_ref, f, wrap_const(val))
+                    st.inputs['self.' + f] = wrap_const(val)
         entry = st.fork()
         c0 = Ctx(ex, entry, st, ex.self_ref)
         if spec.requires is not None:
             st.assume(spec.requires(c0))
         # vacuity guard: the precondition must be satisfiable
-        cov = Obligation(f'{spec.name}#cover(requires)', st.pc, z3.BoolVal(False), 'cover', fn.lineno)
+        cov = Obligation(f'{spec.name}{tag}#cover(requires)', st.pc, z3.BoolVal(False), 'cover', fn.lineno)
         res.obligations.append(cov)
         body = fn.body
         if spec.region:
             body = spec.region(fn)
             ex.func = ast.FunctionDef(name=fn.name, args=fn.args, body=body, decorator_list=[], lineno=fn.lineno)
         outcomes = ex.run(st)
+        for oc in outcomes:
+            oc.engine = ex
         res.outcomes = outcomes
         res.paths = len(outcomes)
         res.inputs = st.inputs
@@ -300,7 +344,7 @@ def generate(spec, mutate=None):
             if oc.kind == 'return':
                 c = Ctx(ex, ex.entry_state, s, ex.self_ref, result=oc.value)
                 for label, f in spec.ensures:
-                    ob = Obligation(f'{spec.name}#post({label})/path{i}', s.pc, f(c), 'post', fn.lineno)
+                    ob = Obligation(f'{spec.name}{tag}#post({label})/path{i}', s.pc, f(c), 'post', fn.lineno)
                     ob.state, ob.outcome = s, oc
                     res.obligations.append(ob)
             else:
@@ -312,18 +356,23 @@ def generate(spec, mutate=None):
                         allowed = post
                         break
                 if allowed is None:
-                    ob = Obligation(f'{spec.name}#signals({cls})/path{i}', s.pc, z3.BoolVal(False), 'signals',
+                    ob = Obligation(f'{spec.name}{tag}#signals({cls})/path{i}', s.pc, z3.BoolVal(False), 'signals',
                                     fn.lineno, note=f'exception {cls} escapes but is not in the signals clause')
                     ob.state, ob.outcome = s, oc
                     res.obligations.append(ob)
                 elif allowed is not True:
-                    ob = Obligation(f'{spec.name}#post-raise({cls})/path{i}', s.pc, allowed(c), 'post-raise', fn.lineno)
+                    ob = Obligation(f'{spec.name}{tag}#post-raise({cls})/path{i}', s.pc, allowed(c), 'post-raise', fn.lineno)
                     ob.state, ob.outcome = s, oc
                     res.obligations.append(ob)
             for label, f in spec.always:
-                ob = Obligation(f'{spec.name}#always({label})/path{i}', s.pc, f(c), 'post', fn.lineno)
+                ob = Obligation(f'{spec.name}{tag}#always({label})/path{i}', s.pc, f(c), 'post', fn.lineno)
                 ob.state, ob.outcome = s, oc
                 res.obligations.append(ob)
+        for ob in ex.obligations:
+            ob.name = ob.name.replace('#', tag + '#', 1) if tag else ob.name
+            ob.engine = ex
+        for ob in res.obligations:
+            ob.engine = ex
         res.obligations.extend(ex.obligations)
         res.touched = sorted(ex.touched)
     except Unsupported as e:
